@@ -16,6 +16,7 @@ CONSTANTS
   ClampDotDot = TRUE
   RestartAbsAtRoot = TRUE
   NoFollowOnOpen = TRUE
+  TrailingSlashIsDirTest = TRUE
   EmptyPathIsENOENT = TRUE
   EmitCases = TRUE
 INVARIANTS TypeOK AgreesWithKernel InRoot Bounded CaseOut
